@@ -109,10 +109,10 @@ def gen_steps(draw, n, root, depth=2):
         if root != 'A':
             kinds += ['(', 'x', 'X', 'dunder']
         k = draw(st.sampled_from(kinds))
-        if k in ('x', 'X') and (sum(1 for s_ in steps if s_[0] in 'xX') >= 2 or depth < 2 or root == 'S'):
+        if k in ('x', 'X') and (sum(1 for s_ in steps if s_[0] in 'xX') >= 2 or depth < 2 or (root == 'S' and not steps)):
             # at most two wildcard steps per expression (each multiplies the work on the battery);
-            # S-rooted wildcards are not generated: the recursive evaluation of the remaining steps
-            # restarts from the scope, which then traverses glom's own registries (DESIGN.md F20)
+            # a wildcard applied to the scope ITSELF (first step of an S-rooted expression) would traverse glom's
+            # own registries and is not generated; below a scope value it is (DESIGN.md F20, repaired)
             k = '.'
         if k == '.':
             steps.append(['.', draw(st.sampled_from(NAMES))])
